@@ -173,3 +173,71 @@ Example C17_ex_copy :
   | _ => False
   end.
 Proof. vm_compute. repeat split. Qed.
+
+(* ================================================================================================================
+   The copy-field helper (copy_fields.go) is also modelled by C18 (Model/GenPartialStruct.v: partialstruct passes its
+   own method names and the Skip / FieldContext callbacks).  Through the adapter of Model/Generators.v the two models
+   select the same statement on their common domain, so the heap-level theorems above are theorems about the
+   DeepCopyAs / DeepCopyIntoAs bodies that partialstruct generates (full statements and side conditions: Props/C18.v,
+   Copy_c17_is_c18_field_stmt ... C18_copy_unshared_plain).
+   ================================================================================================================ *)
+Require Gengo.Model.GenPartialStruct Gengo.Model.Generators Gengo.Proofs.Generators.
+Module GN := Gengo.Model.Generators.
+Module PS := Gengo.Model.GenPartialStruct.
+
+Theorem C17_field_stmt_is_c18 : forall L target c, PS.fx_errnil c = true ->
+  forall G f ft,
+    GN.fty17 L target c (PS.f_ty f) = Some ft ->
+    GN.agrees target G (PS.f_ty f) ->
+    exists s18 i s17 dep,
+      PS.field_stmt L target c false f = PS.GOk s18 i /\
+      field_stmt all_fixed G [] (PS.f_name f) ft = Ok (s17, dep) /\
+      GN.stmt17 s18 = s17.
+Proof. exact Gengo.Proofs.Generators.field_stmt_agree. Qed.
+Print Assumptions C17_field_stmt_is_c18.
+
+(* copy equal / fresh / unshared for the body generated by the OTHER user of the helper *)
+Theorem C17_copy_theorems_cover_partialstruct : forall L target c, PS.fx_errnil c = true ->
+  forall ti g i fs G ms rec bound cfs d tp,
+    PS.generate_type L target c ti = PS.TGen g i ->
+    PS.ti_under ti = Some fs ->
+    GN.fields17 L target c (PS.replace_map (PS.ti_replace ti) []) (filter (GN.keep (PS.ti_omit ti)) fs) = Some cfs ->
+    (forall f, In f fs -> GN.keep (PS.ti_omit ti) f = true ->
+               GN.agrees_field target G (PS.replace_map (PS.ti_replace ti) []) f) ->
+    dom G ->
+    lookup G (PS.g_name g) = Some d -> d_kind d = DStruct tp cfs ->
+    rec_spec G ms rec bound ->
+    Gengo.Proofs.Generators.callees_as_ok G ms cfs ->
+    forall h,
+      GN.deep_copy_as_heap rec G ms g None h = Ok (None, h) /\
+      forall fin, wt_fields G h cfs fin -> depth_fields fin < bound ->
+        exists fout t,
+          GN.deep_copy_as_heap rec G ms g (Some fin) h = Ok (Some (VStruct fout), h ++ t) /\
+          snapshot (h ++ t) (VStruct fout) = snapshot h (VStruct fin) /\
+          (forall a, In a (locs (VStruct fout)) -> List.length h <= a < List.length (h ++ t)) /\
+          (forall a cell, In a (locs (VStruct fout)) ->
+             snapshot (write (h ++ t) a cell) (VStruct fin) = snapshot h (VStruct fin)).
+Proof. exact Gengo.Proofs.Generators.copy_as_transfer. Qed.
+Print Assumptions C17_copy_theorems_cover_partialstruct.
+
+(* ---- deepcopy as an instance of the pipeline's abstract generator (Model/Generators.v): gengo.Execute's per-package
+   loop over the sorted, dispatched types with the state g.processed kept between the calls is [gen_deepcopy] of this
+   file on that package alone, from the empty processed set, printed ([print_method]: the text of the templates, a
+   parameter).  A panic / unbounded recursion of the model is a call that never returns.  Consequences: Props/C05.v
+   (C05_deepcopy_fresh_per_package), Props/C04.v (C04_fixed_point_with_deepcopy). ---- *)
+Require Gengo.Model.Pipeline Gengo.Proofs.GeneratorsPipe.
+
+Theorem C17_is_pipeline_generator :
+  forall fx graph vis print_method fuel (E : Gengo.Model.Pipeline.env) p,
+    let g := GN.deepcopy_gen fx graph vis print_method fuel in
+    let called := Gengo.Proofs.GeneratorsPipe.called fx graph vis print_method fuel E p in
+    (forall t, In t called ->
+       exists d, lookup (graph p) (Gengo.Model.Pipeline.ty_name t) = Some d /\ enabled (graph p) d = true) ->
+    match gen_deepcopy fuel fx (graph p) (map Gengo.Model.Pipeline.ty_name called) (vis p) with
+    | Ok ms => Gengo.Model.Pipeline.go_out (Gengo.Model.Pipeline.gen_run E g p) = Gengo.Model.Pipeline.Done /\
+               Gengo.Model.Pipeline.go_body (Gengo.Model.Pipeline.gen_run E g p) = GN.print_methods print_method ms /\
+               Gengo.Model.Pipeline.go_ignore (Gengo.Model.Pipeline.gen_run E g p) = false
+    | _ => Gengo.Model.Pipeline.go_out (Gengo.Model.Pipeline.gen_run E g p) = Gengo.Model.Pipeline.Died
+    end.
+Proof. exact Gengo.Proofs.GeneratorsPipe.deepcopy_gen_run. Qed.
+Print Assumptions C17_is_pipeline_generator.
